@@ -36,6 +36,24 @@ def accOp (toks : List String) : Option String :=
       match setTail c p.lo v with
       | .ok c' => pure s!"ok {show' (getTail c p.lo)} {bytesToHex c'} {show' (getTail c' p.lo)}"
       | _ => pure "panic"
+  | ["accra", t, f, ch, offs, ks] => do
+    -- the setter's argument is a window of the element's own contents (`a.SetX(a.Buffer[off:off+k])`): Go's copy has memmove
+    -- semantics, so the result is that of setting a private copy of that window
+    let p ← findRange t f
+    let c ← hexToBytes ch
+    let off ← offs.toNat?
+    let k ← ks.toNat?
+    let v := (c.drop off).take k
+    let show' : Outcome Bytes → String := fun o => match o with | .ok b => bytesToHex b | .err _ => "err" | .panic => "panic"
+    match p.kind with
+    | .range =>
+      match setRange c p.lo p.hi v with
+      | .ok c' => pure s!"ok {bytesToHex c'} {show' (getRange c' p.lo p.hi)}"
+      | _ => pure "panic"
+    | .tail =>
+      match setTail c p.lo v with
+      | .ok c' => pure s!"ok {bytesToHex c'} {show' (getTail c' p.lo)}"
+      | _ => pure "panic"
   | ["accl", _t, ch, _iei, _len, newlen, newiei] => do
     -- SetLen / SetIei on an array-backed element: each stores its own field, the contents stay (the harness pads the contents
     -- to the array size; the driver echoes them as given, the harness-side op prints the whole array)
